@@ -18,6 +18,20 @@ def scale(tier, q, t): return q if tier == 'quick' else t
 
 # ------------------------------------------------------------------ message-level streams
 
+def with_truncations(rng, cases, rate=0.12):
+    """interleave truncated copies of message cases: a decoder that keeps anything between calls
+    (scratch buffers, caches) is only caught by a failing call followed by a good one"""
+    out = []
+    for cse in cases:
+        out.append(cse)
+        if cse.startswith('M ') and len(cse) > 8 and rng.random() < rate:
+            hx = cse[2:]
+            n = len(hx) // 2
+            cut = rng.randrange(1, n)
+            out.append('M ' + hx[:2 * cut])
+            out.append(cse)
+    return out
+
 def msg_cases(rng, tier, types=None, per_type=None, modes=('mixed', 'random', 'ones', 'zeros')):
     types = types or gen.SUPPORTED
     per_type = per_type or scale(tier, 120, 3000)
@@ -26,7 +40,7 @@ def msg_cases(rng, tier, types=None, per_type=None, modes=('mixed', 'random', 'o
         for i in range(per_type):
             mode = modes[i % len(modes)] if i >= 4 else modes[i % len(modes)]
             out.append(M(gen.pack(gen.message_bits(rng, t, mode))))
-    return out
+    return with_truncations(rng, out)
 
 def one_field_cases(rng, tier, types=None):
     """each field of each layout at its extremes / single bits / sentinels with neighbours all-zero,
@@ -55,6 +69,34 @@ def one_field_cases(rng, tier, types=None):
                             vals = gen.rand_values(rng, allf, mode)
                             vals.update(fixed); vals['type'] = t; vals[name] = v
                             out.append(M(gen.pack(gen.bits_of(allf, vals))))
+    return with_truncations(rng, out)
+
+def poisoned_parser_cases(rng, tier, types=None):
+    """the same AisParser is reused after a line that fails at the decode stage (bad armouring
+    character after a good one, unsupported type, payload too short, capacity), then decodes a good
+    line: whatever a parser keeps between lines must not leak into the next message"""
+    out = []
+    types = types or gen.SUPPORTED
+    def bad_lines():
+        t = rng.choice(gen.SUPPORTED)
+        pay, fill = gen.armor(gen.message_bits(rng, t, 'random'))
+        yield gen.sentence(pay[:1] + b'x' + pay[2:], fill)                                  # invalid armouring character
+        yield gen.sentence(pay[:rng.randrange(1, max(2, len(pay) // 2))], 0)                 # too short for its type
+        u = rng.choice([0, 22, 23, 25, 26, 28, 40, 63])
+        yield gen.sentence(bytes([gen.armor_char(u)]) + pay[1:], fill)                       # unsupported type
+        yield gen.sentence(bytes(rng.choice(gen.ALPHABET) for _ in range(rng.choice([1, 5, 60]))), rng.randrange(6))
+    for t in types:
+        for _ in range(scale(tier, 6, 60)):
+            good, gfill = gen.armor(gen.message_bits(rng, t, 'random'))
+            for bad in bad_lines():
+                out.append('H')
+                out.append(L(0, 1, bad))
+                out.append(L(0, 1, gen.sentence(good, gfill)))
+                out.append(L(0, 1, gen.sentence(good, gfill)))
+    for u in range(64):     # every type value after a poisoned line
+        out.append('H'); out.append(L(0, 1, gen.sentence(b'1x', 0)))
+        b = bytearray(gen.pack(gen.message_bits(rng, 1, 'zeros')) + bytes(10)); b[0] = (u << 2)
+        out.append(L(0, 1, gen.sentence(gen.armor(''.join(format(x, '08b') for x in b))[0], 0)))
     return out
 
 def length_cases(rng, tier):
@@ -95,7 +137,7 @@ def enum_cases(rng, tier):
                             if t == 20: bits += '0' * 30
                             if t in (12, 14): bits += '000001' * 3
                             out.append(M(gen.pack(bits)))
-    return out
+    return with_truncations(rng, out)
 
 def text_cases(rng, tier):
     out = []
@@ -144,7 +186,7 @@ def text_cases(rng, tier):
                 chars = [rng.randrange(64) if style == 0 else rng.choice([0, 32, 1, 33]) for _ in range(n)]
                 bits = gen.bits_of(head, vals) + ''.join(format(c, '06b') for c in chars)
                 out.append(M(gen.pack(bits)))
-    return out
+    return with_truncations(rng, out)
 
 def radio_cases(rng, tier):
     out = []
@@ -163,7 +205,7 @@ def radio_cases(rng, tier):
         for _ in range(scale(tier, 1500, 40000)):
             vals = gen.rand_values(rng, fl, 'random'); vals['type'] = t
             out.append(M(gen.pack(gen.bits_of(fl, vals))))
-    return out
+    return with_truncations(rng, out)
 
 def coord_cases(rng, tier):
     out = []
@@ -187,7 +229,14 @@ def coord_cases(rng, tier):
                 for _ in range(per):
                     vals = gen.rand_values(rng, fl, 'random'); vals['type'] = t; vals[name] = v
                     out.append(M(gen.pack(gen.bits_of(fl, vals))))
-    return out
+            # the sibling coordinate at each "not available" code while this one carries a value
+            if name in ('lon', 'lat'):
+                other = 'lat' if name == 'lon' else 'lon'
+                for sv in (108600000, 54600000, 108600, 54600):
+                    for v in [0, 1, m, 1 << (w - 1), 12345 & m] + [rng.getrandbits(w) for _ in range(6)]:
+                        vals = gen.rand_values(rng, fl, 'random'); vals['type'] = t; vals[name] = v; vals[other] = sv
+                        out.append(M(gen.pack(gen.bits_of(fl, vals))))
+    return with_truncations(rng, out)
 
 def binary_cases(rng, tier):
     out = []
@@ -203,7 +252,7 @@ def binary_cases(rng, tier):
         for n in range(0, hb):
             vals = gen.rand_values(rng, fl, 'random'); vals['type'] = t
             out.append(M(gen.pack(gen.bits_of(fl, vals))[:n]))
-    return out
+    return with_truncations(rng, out)
 
 # ------------------------------------------------------------------ unarmor
 
@@ -287,6 +336,30 @@ def sentence_field_cases(rng, tier):
         add(gen.sentence(pay, fill, tail=tail), 0)
     for _ in range(scale(tier, 600, 8000)):
         add(gen.valid_sentence(rng))
+    return out
+
+def sentence_context_cases(rng, tier):
+    """C07: the reported fields and payload of sentences with every numbering shape, offered on a
+    fresh parser, inside an open group and right after a delivered group (same and other id)"""
+    out = []
+    pay, fill = gen.armor(gen.message_bits(rng, 1))
+    shapes = [(n, k) for n in (0, 1, 2, 3, 9, 255) for k in (0, 1, 2, 3, 9, 255)]
+    for sid in (None, 1, 7):
+        for n, k in shapes:
+            target = gen.sentence(pay, fill, n, k, sid, chan=rng.choice([b'A', b'B', b'']))
+            for ctx in range(5):
+                out.append('H')
+                if ctx == 1:      # open group, previous fragment k-1 accepted
+                    for j in range(1, max(k, 1)):
+                        out.append(L(0, 0, gen.sentence(b'1', 0, max(n, k, 2), j, sid)))
+                elif ctx == 2:    # just-delivered group with the same id
+                    out.append(L(0, 0, gen.sentence(b'55', 0, 2, 1, sid))); out.append(L(0, 0, gen.sentence(b'66', 0, 2, 2, sid)))
+                elif ctx == 3:    # just-delivered group with another id
+                    out.append(L(0, 0, gen.sentence(b'55', 0, 2, 1, 3))); out.append(L(0, 0, gen.sentence(b'66', 0, 2, 2, 3)))
+                elif ctx == 4:    # abandoned group with the same id
+                    out.append(L(0, 0, gen.sentence(b'55', 0, 3, 1, sid)))
+                out.append(L(0, rng.randrange(2), target))
+                out.append(L(0, 0, target))
     return out
 
 def mutation_cases(rng, tier):
@@ -490,6 +563,16 @@ def capacity_cases(rng, tier):
         out.append(L(0, 1, gen.sentence(rp(c), 0, 3, 3, 4)))
         out.append(L(0, 1, gen.sentence(rp(c), 0, 3, 3, 4)))
         out.append(L(0, 1, gen.sentence(b'15M', 0)))
+    # a long group whose fragment k overflows the buffer by one byte, then more fragments
+    for k in (2, 3, 100, 254, 255):
+        for over in (0, 1):
+            out.append('H')
+            for j in range(1, k): out.append(L(0, 0, gen.sentence(b'0', 0, 255, j, None)))
+            out.append(L(0, 0, gen.sentence(rp(384 - (k - 1) + over), 0, 255, k, None)))
+            out.append(L(0, 0, gen.sentence(b'0', 0, 2, 2, None)))
+            if k < 255: out.append(L(0, 0, gen.sentence(b'0', 0, 255, k + 1, None)))
+            out.append(L(0, 1, gen.sentence(b'15M', 0)))
+            out.append(L(0, 0, gen.sentence(b'0', 0, 255, 255, None)))
     for t, head in ((6, 11), (8, 7), (17, 15)):
         for n in (117, 118, 119, 120, 121, 125):
             b = bytearray(rng.getrandbits(8) for _ in range(head + n)); b[0] = (t << 2) | (b[0] & 3)
